@@ -708,7 +708,13 @@ pub(crate) async fn invoke_shell_function(
     // Apply any redirects specified at function definition-time.
     if let Some(redirects) = redirects {
         for redirect in &redirects.0 {
-            interp::setup_redirect(context.shell, &mut context.params, redirect).await?;
+            if let Err(e) =
+                interp::setup_redirect(context.shell, &mut context.params, redirect).await
+            {
+                use std::io::Write as _;
+                writeln!(context.params.stderr(context.shell), "error: {e}")?;
+                return Ok(ExecutionResult::general_error().into());
+            }
         }
     }
 
